@@ -943,3 +943,263 @@ def check_c07(mt, sess):
                 raise core.Violation("C07", "context-mismatch", {"op": oi, "what": "InsertionContext of insert_at/replace_at", "got": [c["block"], c["offset"]], "expected": [key, off]}, {"kind": "specific"})
         if len(by_op.get(oi, [])) > 1:
             raise core.Violation("C07", "invoked-twice", {"op": oi}, {"kind": "specific"})
+
+
+# ------------------------------------------------------------------ C08
+
+
+def _cfi_eval(world):
+    """Independent evaluation of the module's cfiDirectives table.
+    -> (steps keyed by address in order, error or None)"""
+    from .. import cfi_ref
+
+    m = world.module
+    table = m.aux_data.get("cfiDirectives")
+    blocks = sorted((b for b in m.code_blocks if b.address is not None), key=lambda b: (b.address, b.size != 0, b.uuid.int))
+    data = table.data if table is not None else {}
+    # directives keyed by data blocks / intervals are not evaluated
+    blk, hist = cfi_ref.history_from_table(data, blocks)
+    groups = cfi_ref.group_history(blk, hist)
+    abi = dict(cfi_ref.ABIS["x64-elf"])
+    abi["eh"] = True
+    steps = cfi_ref.interpret(groups, abi, {"rel_offset": "library"})
+    out = []
+    err = None
+    for st in steps:
+        b, off = st["loc"]
+        a = blk[b]["addr"] + off
+        if "error" in st or "unspecified" in st:
+            err = {"address": a, "what": st.get("error") or st.get("unspecified")}
+            break
+        out.append((a, st["proc"], st["state"]))
+    return out, err
+
+
+def _state_at(steps, addrs):
+    """state in effect at each address (after all directive locations <= it)"""
+    import bisect
+
+    keys = [s[0] for s in steps]
+    res = {}
+    for a in addrs:
+        i = bisect.bisect_right(keys, a) - 1
+        res[a] = (0, None) if i < 0 else (steps[i][1], steps[i][2])
+    return res
+
+
+def c08_pre(mt):
+    """Unwind state at every instruction before the session."""
+    steps, err = _cfi_eval(mt.world)
+    if err is not None:
+        raise core.Rejected(f"input CFI does not evaluate cleanly: {err}")
+    addr = mt.tok_addr()
+    toks = [(t, addr[t.id]) for _, u in mt.model.units() for t in u.toks if t.kind == "insn" and t.id in addr]
+    st = _state_at(steps, [a for _, a in toks])
+    return {t.id: st[a] for t, a in toks}, _cfi_history(mt.world)
+
+
+def _cfi_history(world):
+    from .. import cfi_ref
+
+    m = world.module
+    table = m.aux_data.get("cfiDirectives")
+    blocks = sorted((b for b in m.code_blocks if b.address is not None), key=lambda b: (b.address, b.size != 0, b.uuid.int))
+    blk, hist = cfi_ref.history_from_table(table.data if table is not None else {}, blocks)
+    return {"keys": [str(b.uuid) for b in blocks], "blk": blk, "hist": hist}
+
+
+def _state_at_location(pre_hist, key, off):
+    """(in procedure?, state) in effect for code inserted at (block, off):
+    every directive at earlier listing positions, plus those keyed at
+    exactly (block, off) up to (not including) the first .cfi_endproc."""
+    from .. import cfi_ref
+
+    if key not in pre_hist["keys"]:
+        return None
+    bi = pre_hist["keys"].index(key)
+    groups = cfi_ref.group_history(pre_hist["blk"], pre_hist["hist"])
+    abi = dict(cfi_ref.ABIS["x64-elf"])
+    mach = cfi_ref.Machine(abi, {"rel_offset": "library"})
+    target = (pre_hist["blk"][bi]["addr"], bi, off)
+    for loc, events in groups:
+        here = (pre_hist["blk"][loc[0]]["addr"], loc[0], loc[1])
+        if here > target:
+            break
+        for ev in events:
+            if here == target and ev[2] == ".cfi_endproc":
+                break
+            if mach.step(ev) is not None:
+                return None
+        mach.end_group()
+    return (mach.s.proc if mach.s else 0), mach.snapshot()
+
+
+def check_c08(mt, sess):
+    try:
+        _check_c08(mt, sess)
+    except core.Violation as v:
+        v.sig["layout_reordered"] = bool(mt.obs.reordered)
+        raise
+
+
+def _check_c08(mt, sess):
+    pre, pre_hist = sess.c08_pre
+    steps, err = _cfi_eval(mt.world)
+    if err is not None:
+        raise core.Violation("C08", "eval-error", err, {"what": str(err["what"].get("kind") if isinstance(err["what"], dict) else err["what"])[:60]})
+    addr = mt.tok_addr()
+    model = mt.model
+    toks = [(t, addr[t.id]) for _, u in model.units() for t in u.toks if t.kind == "insn" and t.id in addr]
+    st = _state_at(steps, [a for _, a in toks])
+    deleted_any = any(op["k"] in ("del", "delblock", "rep", "delfn") for op in sess.desc["ops"])
+    # (2) in-procedure iff before; (3) unchanged state when nothing is deleted
+    for t, a in toks:
+        if t.id not in pre:
+            continue
+        p0, s0 = pre[t.id]
+        p1, s1 = st[a]
+        if bool(p0) != bool(p1):
+            raise core.Violation("C08", "in-proc-changed", {"token": t.id, "address": a, "before": bool(p0), "after": bool(p1)}, {"now_in": bool(p1), "deleted_any": deleted_any})
+        if not deleted_any and s0 != s1:
+            raise core.Violation("C08", "state-changed", {"token": t.id, "address": a, "before": _brief(s0), "after": _brief(s1)}, {"field": _diff_field(s0, s1)})
+    # (5) ordered list of procedures that still hold an original instruction
+    def proc_list(get):
+        order = []
+        members = {}
+        for sname in model.section_order:
+            for u in model.sections[sname]:
+                for t in u.toks:
+                    if t.kind == "insn" and t.id in pre and t.id in addr:
+                        p = get(t)
+                        if p:
+                            if p not in members:
+                                members[p] = []
+                                order.append(p)
+                            members[p].append(t.id)
+        return [tuple(members[p]) for p in order]
+
+    before = proc_list(lambda t: pre[t.id][0])
+    after = proc_list(lambda t: st[addr[t.id]][0])
+    if before != after:
+        raise core.Violation("C08", "procedure-list", {"before": [list(x)[:4] for x in before], "after": [list(x)[:4] for x in after]}, {"nbefore": len(before), "nafter": len(after)})
+    # (4) patch instructions of pure insertions: covered by the procedure
+    # that is open at the insertion point, with the state in effect there
+    # plus the patch's own directives
+    import re
+
+    where = {}
+    for oi, (key, off, length) in sess.resolved.items():
+        if sess.desc["ops"][oi]["k"] == "ins":
+            where[oi] = (key, off)
+    regs = {}
+    for c in sess.captures:
+        if sess.desc["ops"][c["op"]]["k"] == "reg":
+            regs[(c["op"], c["inv"])] = (c["block"], c["offset"])
+    cache = {}
+    for t, a in toks:
+        if deleted_any:
+            # structural directives of deleted blocks move to their
+            # neighbours; the pre-session positions no longer apply
+            break
+        if t.id in pre or not isinstance(t.origin, str):
+            continue
+        mo = re.match(r"s(\d+)o(\d+)i(\d+)", t.origin)
+        if not mo or int(mo.group(1)) != sess.index:
+            continue
+        oi, inv = int(mo.group(2)), int(mo.group(3))
+        loc = where.get(oi) or regs.get((oi, inv))
+        if loc is None:
+            continue
+        if loc not in cache:
+            cache[loc] = _state_at_location(pre_hist, loc[0], loc[1])
+        base = cache[loc]
+        if base is None:
+            continue
+        bproc, bstate = base
+        p1, s1 = st[a]
+        own = _patch_cfi(sess, t)
+        if bool(p1) != bool(bproc):
+            # structural cause: another insertion at the end of the block
+            # right in front of this one (the .cfi_endproc travels)
+            after_end_insert = False
+            if loc[1] == 0 and loc[0] in pre_hist["keys"]:
+                bi = pre_hist["keys"].index(loc[0])
+                for oi2, (k2, o2, l2) in sess.resolved.items():
+                    if k2 in pre_hist["keys"] and sess.desc["ops"][oi2]["k"] == "ins":
+                        b2 = pre_hist["keys"].index(k2)
+                        if b2 < bi and o2 == pre_hist["blk"][b2]["size"] and pre_hist["blk"][b2]["addr"] + o2 == pre_hist["blk"][bi]["addr"]:
+                            after_end_insert = True
+            raise core.Violation(
+                "C08",
+                "patch-state",
+                {"token": t.id, "what": "patch instruction covered by a procedure" if p1 else "patch instruction inside a procedure is not covered by it", "insertion": list(loc)},
+                {"kind": "covered-outside" if p1 else "not-covered", "after_end_insert": after_end_insert},
+            )
+        if not bproc:
+            continue
+        want = _adjust(bstate, own or 0)
+        if deleted_any:
+            # register rules that describe deleted instructions may be gone
+            continue
+        if s1 != want:
+            raise core.Violation(
+                "C08",
+                "patch-state",
+                {"token": t.id, "state": _brief(s1), "expected": _brief(want), "own_adjust": own, "insertion": list(loc)},
+                {"kind": "state", "own_cfi": own is not None, "field": _diff_field(s1, want)},
+            )
+
+
+def _patch_cfi(sess, tok):
+    """Net .cfi_adjust_cfa_offset in effect at a patch instruction (from the
+    patch descriptor), or None if the patch has no CFI of its own."""
+    org = tok.origin
+    if not isinstance(org, str) or not org.startswith("s"):
+        return None
+    import re
+
+    mo = re.match(r"s(\d+)o(\d+)i(\d+)", org)
+    if not mo or int(mo.group(1)) != sess.index:
+        return None
+    op = sess.desc["ops"][int(mo.group(2))]
+    p = op.get("patch") or {}
+    lines = p.get("lines") or []
+    if not any("cfi_adjust" in (l.get("raw") or "") for l in lines):
+        return None
+    # instruction ordinal of this token inside the patch
+    n = int(tok.id.rsplit(".", 1)[1])
+    total = 0
+    k = -1
+    for l in lines:
+        if "raw" in l and "cfi_adjust_cfa_offset" in l["raw"]:
+            if k < n:
+                total += int(l["raw"].split()[-1])
+        elif "label" not in l and not ("raw" in l and l["raw"].startswith(".cfi")):
+            k += 1
+    return total
+
+
+def _adjust(state, delta):
+    import copy
+
+    if state is None or not delta:
+        return state
+    s = copy.deepcopy(state)
+    if s["cfa"] and s["cfa"][0] == "reg":
+        s["cfa"] = ["reg", s["cfa"][1], s["cfa"][2] + delta]
+    return s
+
+
+def _brief(s):
+    if s is None:
+        return None
+    return {"cfa": s["cfa"], "registers": s["registers"], "save_stack": len(s["save_stack"]), "personality": s["personality"], "lsda": s["lsda"], "return_column": s["return_column"]}
+
+
+def _diff_field(a, b):
+    if a is None or b is None:
+        return "proc"
+    for k in ("cfa", "registers", "save_stack", "personality", "lsda", "return_column", "initial_cfa", "initial_registers"):
+        if a.get(k) != b.get(k):
+            return k
+    return "?"
